@@ -26,7 +26,7 @@ enum M {
     #[serde(rename = "x.Fail")]
     Fail { t: u32 },
     #[serde(rename = "x.Sub")]
-    Sub { t: u32, n: u32 },
+    Sub { t: u32, n: u32, #[serde(default)] p: u32 },
 }
 #[derive(Debug, ReplyError)]
 #[zlink(interface = "x", crate = "zlink_core")]
@@ -61,10 +61,22 @@ impl Service for Svc {
                 self.log.borrow_mut().push(format!("{}:{}", t / 1000, if ow { 'F' } else { 'f' }));
                 MethodReply::Error(E::Y)
             }
-            M::Sub { t, n } => {
-                self.log.borrow_mut().push(format!("{}:s{}", t / 1000, n));
+            M::Sub { t, n, p } => {
+                self.log.borrow_mut().push(format!("{}:s{}{}", t / 1000, n, if *p == 0 { String::new() } else { format!("p{p}") }));
+                // flag patterns: 0 = conventional (true … true, false), 1 = all true, 2 = alternating starting with
+                // true, 3 = no flag at all (items after a non-continuing one are still the service's items)
                 MethodReply::Multi(futures_util::stream::iter(
-                    (0..*n).map(|i| Reply::new(Some(Rep { v: i })).set_continues(Some(i + 1 < *n))).collect::<Vec<_>>(),
+                    (0..*n)
+                        .map(|i| {
+                            let c = match *p {
+                                0 => Some(i + 1 < *n),
+                                1 => Some(true),
+                                2 => Some(i % 2 == 0),
+                                _ => None,
+                            };
+                            Reply::new(Some(Rep { v: i })).set_continues(c)
+                        })
+                        .collect::<Vec<_>>(),
                 ))
             }
         }
@@ -90,7 +102,7 @@ impl Listener for L {
 pub enum Desc {
     Echo(u32, bool),
     Fail(bool),
-    Sub(u32),
+    Sub(u32, u32),
     Garbage(u8),
 }
 
@@ -99,7 +111,7 @@ impl Desc {
         match self {
             Desc::Echo(v, ow) => format!("{}{}", if *ow { 'E' } else { 'e' }, v),
             Desc::Fail(ow) => (if *ow { "F" } else { "f" }).to_string(),
-            Desc::Sub(n) => format!("s{n}"),
+            Desc::Sub(n, p) => if *p == 0 { format!("s{n}") } else { format!("s{n}p{p}") },
             Desc::Garbage(_) => "g".into(),
         }
     }
@@ -108,7 +120,7 @@ impl Desc {
         match self {
             Desc::Echo(v, ow) => format!("{{\"method\":\"x.Echo\",\"parameters\":{{\"t\":{t},\"v\":{v}}}{}}}", if *ow { ",\"oneway\":true" } else { "" }),
             Desc::Fail(ow) => format!("{{\"parameters\":{{\"t\":{t}}},\"method\":\"x.Fail\"{}}}", if *ow { ",\"oneway\":true" } else { "" }),
-            Desc::Sub(n) => format!("{{\"method\":\"x.Sub\",\"more\":true,\"parameters\":{{\"t\":{t},\"n\":{n}}}}}"),
+            Desc::Sub(n, p) => format!("{{\"method\":\"x.Sub\",\"more\":true,\"parameters\":{{\"t\":{t},\"n\":{n},\"p\":{p}}}}}"),
             Desc::Garbage(k) => match k % 5 {
                 0 => "{\"method\":\"x.Nope\"}".to_string(),
                 1 => "garbage".to_string(),
@@ -244,7 +256,7 @@ fn gen_descs(rng: &mut Rng, maxcalls: usize, allow_garbage: bool, allow_sub: boo
             5 => Desc::Echo(rng.below(1000) as u32, true),
             6 => Desc::Fail(false),
             7 => Desc::Fail(rng.chance(1, 2)),
-            8 | 9 if allow_sub => Desc::Sub(rng.below(5) as u32),
+            8 | 9 if allow_sub => Desc::Sub(rng.below(5) as u32, if rng.chance(1, 2) { 0 } else { rng.range(1, 3) as u32 }),
             10 if allow_garbage => Desc::Garbage(rng.next() as u8),
             _ => Desc::Echo(rng.below(1000) as u32, false),
         })
